@@ -470,4 +470,4 @@ def _curated_first(ck, p):
             ck.refuted(rule, key, f.loc(late[0][1]["ln"]), "a user/file dictionary is added to the merged dictionary before the curated one: the first part that knows a word's letters supplies its entry, so once a word is added (monday, english, colour) every case variant of it in later texts loses the curated part-of-speech data and lints that depend on it change or disappear")
         else:
             ck.proved(rule, key, f.span, "the curated dictionary is added first (%d further part(s) after it)" % (len(adds) - len(cur)))
-    ck.floor(rule, "functions that build a merged dictionary", n, 2)
+    ck.floor(rule, "functions that build a merged dictionary", n, 1)
